@@ -36,6 +36,7 @@ type Oblig struct {
 	Extra   []string // additional assertions specific to this obligation (e.g. instantiations)
 	clauseIdx int
 	noReplay  bool
+	dropQuantified bool // probe fallback: leave out quantified facts
 	vc      *FnVC
 }
 
@@ -113,6 +114,7 @@ type FnVC struct {
 	benign        map[int]bool
 	mutNoted      bool
 	usedLemmas    []string
+	quantPures    map[string]bool
 }
 
 type pureDef struct {
